@@ -375,6 +375,9 @@ type refPoint struct {
 	labels map[string]string
 	bucket int64 // bucket start ns
 	val    float64
+	// optional: the value sits within rounding distance of the comparison threshold - summing the same terms in
+	// another order decides the comparison the other way, so the point may be present or absent
+	optional bool
 }
 
 // evalMetric computes, per output series, the value of every non-empty tumbling range bucket.
@@ -525,6 +528,13 @@ func (p Prog) evalMetric(entries []refEntry) []refPoint {
 	if p.Cmp != "" {
 		var f []refPoint
 		for _, pt := range pts {
+			// (only where a division is involved: counts and sums of the catalogue's values are exact)
+			inexact := p.RangeFn == "rate" || p.RangeFn == "bytes_rate" || p.RangeFn == "avg_over_time" || p.Agg == "avg"
+			if inexact && math.Abs(pt.val-p.CmpVal) <= 1e-9*math.Max(1, math.Abs(p.CmpVal)) {
+				pt.optional = true
+				f = append(f, pt)
+				continue
+			}
 			if numCmp(p.Cmp, pt.val, p.CmpVal) {
 				f = append(f, pt)
 			}
@@ -862,11 +872,18 @@ func c09body(ri *simcheck.RunInfo, s C09Scenario) {
 	ref := p.evalMetric(expEntries)
 	rng := p.rangeNs()
 	refBy := map[string]map[int64]float64{}
+	optBy := map[string]map[int64]bool{}
 	for _, pt := range ref {
 		if refBy[pt.key] == nil {
 			refBy[pt.key] = map[int64]float64{}
 		}
 		refBy[pt.key][pt.bucket] = pt.val
+		if pt.optional {
+			if optBy[pt.key] == nil {
+				optBy[pt.key] = map[int64]bool{}
+			}
+			optBy[pt.key][pt.bucket] = true
+		}
 	}
 	covered := map[string]map[int64]bool{}
 	seenSeries := map[string]int{}
@@ -934,7 +951,7 @@ func c09body(ri *simcheck.RunInfo, s C09Scenario) {
 				if b+rng <= c09Start || b >= c09End {
 					continue
 				}
-				if !covered[k][b] {
+				if !covered[k][b] && !optBy[k][b] {
 					add("bucket-missing", "a non-empty range bucket of the definition is absent from the in-process result: "+classOfProg(p),
 						fmt.Sprintf("query %q: series %s bucket starting %d (value %v) has no output point; returned series: %v", req.Query, k, b/1e9, v, keysOf(seenSeries)))
 					return
